@@ -49,7 +49,8 @@ func profilesFor(id string) []*Profile {
 		p.Paths = []string{"a", "b", "d/c", "bin.dat"}
 		p.Classes = []string{"empty", "text", "nul", "newline_only", "invalid_utf8", "header_like", "digits_space", "big_compressible", "big_random", "crlf"}
 		p.MaxSize = 70000
-		withW(p, "write", 30, "add", 25, "commit", 10, "reset", 2, "branch", 0, "branchd", 0, "branchr", 0, "switch", 0, "switchc", 0, "updateref", 0, "config", 0, "rewrite", 6)
+		withW(p, "write", 30, "add", 25, "commit", 10, "reset", 2, "branch", 0, "branchd", 0, "branchr", 0, "switch", 0, "switchc", 0, "updateref", 0, "config", 0, "rewrite", 6,
+			"hashobject", 8, "writetree", 4)
 		p.Obs = ObsSpec{Hash: true, CatFile: true}
 		return []*Profile{p}
 	case "C02", "C04", "C09", "C06", "C07":
